@@ -140,6 +140,11 @@ def write_consts(c_lay, go_lay, go_consts):
 
 def gen_program(rng, big=False):
     prog = c01.gen_program(rng, big=big)
+    # C01's group "must_see" can never be referenced (patchMustOutbound strips the prefix): here every program should install
+    ren = lambda n: n.replace("must_see", "seen")
+    prog["groups"] = {ren(k): v for k, v in prog["groups"].items()}
+    for o in [r["out"] for r in prog["rules"]] + [prog["fallback"]]:
+        o["name"] = ren(o["name"])
     for r in prog["rules"]:
         for c in r["conds"]:
             if c["kind"] == "pname":
@@ -161,6 +166,8 @@ def gen_packets(rng, prog, n):
             p["pname"] = "00" * 16          # LAN hooks know no process
         elif rng.random() < 0.15:
             p["pname"] = "00" * 16          # WAN socket whose process is unknown (pid_pname == NULL)
+        if p["dst128"] in (0, 0xffff00000000):
+            p["domain"] = ""                # the control plane never binds a name to an unspecified address (extractIPsFromDnsCache)
         r = rng.random()
         if r < 0.30:
             p["dport"] = 53
@@ -306,8 +313,25 @@ def consistent_inputs(case, res):
     return True
 
 
-def run_batch(sc, gobin, cbin, cases, tag):
-    """returns (errors {case: [(pkt, code)]}, sigs, go results, c words, fatal)"""
+CPR = 0xFD   # consts.OutboundControlPlaneRouting; refreshed from the translator in main()
+
+
+def expected_py(dport, r):
+    if r.get("err"):
+        return None
+    if dport == 53 and not r["must"]:
+        return (CPR, r["mark"], False)
+    return (r["o"], r["mark"], r["must"])
+
+
+def decode_py(w):
+    if w is None or w < 0:
+        return None
+    return (w & 0xff, (w >> 8) & 0xffffffff, bool((w >> 40) & 1))
+
+
+def run_impl(sc, gobin, cbin, cases, tag):
+    """both real implementations: returns (go results, C words, pre-errors, indices of comparable cases, fatal)"""
     results, err = run_go(sc, gobin, cases, tag)
     if err:
         return None, None, None, None, err
@@ -326,7 +350,27 @@ def run_batch(sc, gobin, cbin, cases, tag):
     if runnable:
         cwords, err = run_c(sc, cbin, c_input(cases, results, runnable), tag)
         if err:
-            return None, None, results, None, err
+            return results, None, pre, idx, err
+    return results, cwords, pre, idx, None
+
+
+def py_spec_fail(cases, results, cwords, idx):
+    """the property on the two real implementations, computed without Coq: {case: [packet indices]}"""
+    bad = {}
+    for i in idx:
+        if results[i].get("kernerr"):
+            continue
+        for j, (p, r) in enumerate(zip(cases[i]["packets"], results[i]["results"])):
+            if decode_py(cwords.get((i, j))) != expected_py(p["dport"], r):
+                bad.setdefault(i, []).append(j)
+    return bad
+
+
+def run_batch(sc, gobin, cbin, cases, tag):
+    """returns (errors {case: [(pkt, code)]}, sigs, go results, c words, fatal)"""
+    results, cwords, pre, idx, err = run_impl(sc, gobin, cbin, cases, tag)
+    if err:
+        return None, None, results, cwords, err
     cx = c01.Ctx()
     cx.pool = vlib.NumPool("c02k")
     terms = [case_to_coq(cx, cases[i], results[i], cwords, i) for i in idx]
@@ -357,6 +401,10 @@ def run_batch(sc, gobin, cbin, cases, tag):
             errors[i] = e
     m2 = re.search(r"S\s*=\s*(.*?)\n\s*:\s*list", outtxt, re.S)
     sigs = re.findall(r"\((\d+),(\d+),(\d+),(\d+),(\d+)\)", re.sub(r"\s+", "", m2.group(1))) if m2 else []
+    pybad = py_spec_fail(cases, results, cwords, idx)
+    coqbad = {i: sorted(p for (p, c) in e if c == 2) for i, e in errors.items() if any(c == 2 for (_, c) in e)}
+    if {i: sorted(v) for i, v in pybad.items()} != coqbad:
+        return errors, sigs, results, cwords, "orchestrator and Coq disagree on C = dns_adjust(Go): %s vs %s" % (str(pybad)[:300], str(coqbad)[:300])
     return errors, sigs, results, cwords, None
 
 
@@ -368,31 +416,38 @@ def has_code(errs, i, code):
     return any(c == code for (_, c) in errs.get(i, []))
 
 
-def shrink(sc, gobin, cbin, prog, pkt, reloads, code):
-    for rnd in range(10):
+def still_fails(sc, gobin, cbin, cases, tag):
+    """per case: does the (single) probe still violate C = dns_adjust(Go)?  Only the two implementations run."""
+    results, cwords, pre, idx, err = run_impl(sc, gobin, cbin, cases, tag)
+    if err:
+        return None
+    bad = py_spec_fail(cases, results, cwords, idx)
+    return [i in bad for i in range(len(cases))]
+
+
+def shrink(sc, gobin, cbin, prog, pkt, reloads):
+    for rnd in range(12):
         cands = c01.shrink_candidates(prog)
         if not cands:
             break
-        cases = [make_case(p, [pkt], reloads) for p in cands]
-        errs, _, _, _, fatal = run_batch(sc, gobin, cbin, cases, "shrink")
-        if fatal:
+        f = still_fails(sc, gobin, cbin, [make_case(p, [pkt], reloads) for p in cands], "shrink")
+        if f is None:
             break
-        hit = [i for i in range(len(cands)) if has_code(errs, i, code)]
+        hit = [i for i in range(len(cands)) if f[i]]
         if not hit:
             break
         prog = min((cands[i] for i in hit), key=c01.prog_size)
     if reloads:
-        errs, _, _, _, fatal = run_batch(sc, gobin, cbin, [make_case(prog, [pkt], [])], "shrinkr")
-        if not fatal and has_code(errs, 0, code):
+        f = still_fails(sc, gobin, cbin, [make_case(prog, [pkt], [])], "shrinkr")
+        if f and f[0]:
             reloads = []
     neutral = {"domain": "", "pname": "00" * 16, "mac": "0" * 12, "dscp": 0, "sport": 0, "dport": 0, "wan": False}
-    ks = [k for k, v in neutral.items() if pkt[k] != v]
     pk = dict(pkt)
-    for k in ks:   # one field at a time, keeping what still fails
+    for k in [k for k, v in neutral.items() if pkt[k] != v]:   # one field at a time, keeping what still fails
         c = dict(pk)
         c[k] = neutral[k]
-        errs, _, _, _, fatal = run_batch(sc, gobin, cbin, [make_case(prog, [c], reloads)], "shrinkp")
-        if not fatal and has_code(errs, 0, code):
+        f = still_fails(sc, gobin, cbin, [make_case(prog, [c], reloads)], "shrinkp")
+        if f and f[0]:
             pk = c
     return prog, pk, reloads
 
@@ -471,7 +526,10 @@ def main(argv):
         try:
             if rc != 0 or err:
                 raise AnchorMoved("layout report failed: %s %s" % (se[-500:], err))
-            write_consts(json.loads(so), gl[0]["layout"], c01.translate_consts())
+            goc = c01.translate_consts()
+            global CPR
+            CPR = goc["OutboundControlPlaneRouting"]
+            write_consts(json.loads(so), gl[0]["layout"], goc)
         except (AnchorMoved, ValueError, KeyError) as e:
             out.violation("anchor", {"broken": str(e)}, "layout/enum translator failed: " + str(e), no_failing_input=True)
             return out.finish()
@@ -553,7 +611,7 @@ def main(argv):
         n_classes = 0
         while queue and n_classes < 3:
             prog, pkt, rel, i = queue.pop(0)
-            sprog, spkt, srel = shrink(sc, gobin, cbin, prog, pkt, rel, 2)
+            sprog, spkt, srel = shrink(sc, gobin, cbin, prog, pkt, rel)
             e, _, res1, cw1, _ = run_batch(sc, gobin, cbin, [make_case(sprog, [spkt], srel)], "final")
             guard_violated = has_code(e or {}, 0, 9)
             ids = matcher_ids(sprog, spkt, guard_violated)
@@ -571,9 +629,9 @@ def main(argv):
                           matchers=ids)
             if "C02/empty-pname-matches-unknown-wan-process" in ids and queue:
                 rest = [(neutralise_empty_pname(p2), k2, r2, i2) for (p2, k2, r2, i2) in queue]
-                errs2, _, _, _, f2 = run_batch(sc, gobin, cbin, [make_case(q, [k2], r2) for (q, k2, r2, _) in rest], "neutral")
-                if not f2:
-                    queue = [rest[j] for j in range(len(rest)) if has_code(errs2, j, 2)]
+                f2 = still_fails(sc, gobin, cbin, [make_case(q, [k2], r2) for (q, k2, r2, _) in rest], "neutral")
+                if f2 is not None:
+                    queue = [rest[j] for j in range(len(rest)) if f2[j]]
             elif queue:
                 feats = set(c["kind"] for r in sprog["rules"] for c in r["conds"])
                 queue = [q for q in queue if not feats <= set(c["kind"] for r in q[0]["rules"] for c in r["conds"])]
